@@ -1,5 +1,6 @@
 import UberjobModel.Lemmas.EnginePath
 import UberjobModel.Lemmas.EngineComplete
+import UberjobModel.Lemmas.Queues
 import UberjobModel.Lemmas.GraphWF
 import UberjobModel.Lemmas.EngineExamples
 /-!
@@ -127,6 +128,26 @@ theorem C04_exact {g : Graph} (hg : g.WF) {cfg : Cfg} (hw : 1 ≤ cfg.workers) {
   refine ⟨fun x => ⟨C04_only_graph_nodes hg hr x, fun hx => hi.okBegun x (all_okd x hx)⟩,
           fun x => ⟨fun hx => C04_only_graph_nodes hg hr x (hi.okBegun x hx), all_okd x⟩⟩
 
+/-! ### the random bag (`scheduler='random'`) keeps every item exactly once
+
+The engine model lets a worker take ANY queued item, so the theorems above already cover every queue discipline that
+neither loses nor duplicates items.  For `RandomQueue` this is proved of the transcribed `_put` / `_get`; for the
+priority heap it is `heapq`'s contract (trusted, compared in every T3 snapshot). -/
+
+/-- `RandomQueue._put`: after the append-and-swap the queue holds the old items plus the new one, whatever index
+    `random.randrange` returned. -/
+theorem C04_random_put_perm (q : List Nat) (item r : Nat) : (Uberjob.Queues.randomPut q item r).Perm (item :: q) :=
+  Uberjob.Queues.randomPut_perm q item r
+
+/-- `RandomQueue._get` removes exactly the item it returns. -/
+theorem C04_random_get_perm (q : List Nat) (x : Nat) (rest : List Nat)
+    (h : Uberjob.Queues.randomGet q = some (x, rest)) : q.Perm (x :: rest) :=
+  Uberjob.Queues.randomGet_perm q x rest h
+
+/-- The queue classes and `create_queue` still have the transcribed shape. -/
+theorem C04_queue_shapes : Uberjob.Gen.Queues.facts.ok = true := by decide
+
 example : (run? diamond ⟨2, some 0⟩ (init diamond) diamondRun).map (·.enq) = some [0, 1, 2, 3] := by decide
+example : Uberjob.Queues.randomPut [5, 6, 7] 9 1 = [5, 9, 7, 6] := by decide
 
 end Uberjob.Engine
